@@ -7,9 +7,15 @@ import (
 	"os"
 	"strings"
 	"sync"
+	"sync/atomic"
 
 	"verif/harness/internal/pipe"
 )
+
+// circuit breaker shared by the replay commands (one command per process)
+var hangs, skipped int32
+
+const maxHangs = 12
 
 func init() {
 	register("replay-pipeline", "direction A: replay TLC-generated Pipeline.tla cases on the real operators", func(args []string) int {
@@ -39,6 +45,10 @@ func init() {
 			go func() {
 				defer wg.Done()
 				for j := range jobs {
+					if atomic.LoadInt32(&hangs) >= maxHangs {
+						atomic.AddInt32(&skipped, 1) // circuit breaker: every hang costs a watchdog period and leaks a goroutine
+						continue
+					}
 					var res []pipe.Mismatch
 					for _, m := range ms {
 						if m == "sync" && !syncable(j.c) {
@@ -51,6 +61,11 @@ func init() {
 						if st.Do == "push" && st.N.K == "N" {
 							nt = true
 							break
+						}
+					}
+					for _, m := range res {
+						if strings.HasSuffix(m.Class, "hang") {
+							atomic.AddInt32(&hangs, 1)
 						}
 					}
 					mu.Lock()
@@ -85,7 +100,7 @@ func init() {
 			return 2
 		}
 		summary := map[string]any{"cases": n, "replays": len(ms) * n, "nontrivial": nontrivial, "chains": len(chains),
-			"mismatches": all, "by_class": byClass, "samples": samples, "raw": raw}
+			"skipped_after_hangs": atomic.LoadInt32(&skipped), "mismatches": all, "by_class": byClass, "samples": samples, "raw": raw}
 		b, _ := json.Marshal(summary)
 		if *out == "" {
 			fmt.Println(string(b))
@@ -125,6 +140,10 @@ func init() {
 			go func() {
 				defer wg.Done()
 				for j := range jobs {
+					if atomic.LoadInt32(&hangs) >= maxHangs {
+						atomic.AddInt32(&skipped, 1) // circuit breaker: every hang costs a watchdog period and leaks a goroutine
+						continue
+					}
 					var res []pipe.Mismatch
 					for _, m := range ms {
 						pipe.ReplayMulti(j.i, j.c, m, &res)
@@ -133,6 +152,11 @@ func init() {
 					for _, st := range j.c.Steps {
 						if st.Do == "push" {
 							srcs[st.Src] = true
+						}
+					}
+					for _, m := range res {
+						if strings.HasSuffix(m.Class, "hang") {
+							atomic.AddInt32(&hangs, 1)
 						}
 					}
 					mu.Lock()
@@ -166,7 +190,7 @@ func init() {
 			return 2
 		}
 		summary := map[string]any{"cases": n, "replays": len(ms) * n, "nontrivial": nontrivial, "chains": len(chains),
-			"mismatches": all, "by_class": byClass, "samples": samples, "raw": raw}
+			"skipped_after_hangs": atomic.LoadInt32(&skipped), "mismatches": all, "by_class": byClass, "samples": samples, "raw": raw}
 		b, _ := json.Marshal(summary)
 		if err := os.WriteFile(*out, b, 0o644); err != nil {
 			fmt.Fprintln(os.Stderr, err)
@@ -203,6 +227,10 @@ func init() {
 			go func() {
 				defer wg.Done()
 				for j := range jobs {
+					if atomic.LoadInt32(&hangs) >= maxHangs {
+						atomic.AddInt32(&skipped, 1) // circuit breaker: every hang costs a watchdog period and leaks a goroutine
+						continue
+					}
 					var res []pipe.Mismatch
 					pipe.ReplaySubject(j.i, j.c, &res)
 					nt := false
@@ -211,6 +239,11 @@ func init() {
 							if len(d) > 0 {
 								nt = true
 							}
+						}
+					}
+					for _, m := range res {
+						if strings.HasSuffix(m.Class, "hang") {
+							atomic.AddInt32(&hangs, 1)
 						}
 					}
 					mu.Lock()
@@ -244,7 +277,7 @@ func init() {
 			return 2
 		}
 		summary := map[string]any{"cases": n, "replays": n, "nontrivial": nontrivial, "chains": len(chains),
-			"mismatches": all, "by_class": byClass, "samples": samples, "raw": raw}
+			"skipped_after_hangs": atomic.LoadInt32(&skipped), "mismatches": all, "by_class": byClass, "samples": samples, "raw": raw}
 		b, _ := json.Marshal(summary)
 		if err := os.WriteFile(*out, b, 0o644); err != nil {
 			fmt.Fprintln(os.Stderr, err)
@@ -281,6 +314,10 @@ func init() {
 			go func() {
 				defer wg.Done()
 				for j := range jobs {
+					if atomic.LoadInt32(&hangs) >= maxHangs {
+						atomic.AddInt32(&skipped, 1) // circuit breaker: every hang costs a watchdog period and leaks a goroutine
+						continue
+					}
 					var res []pipe.Mismatch
 					pipe.ReplayShare(j.i, j.c, &res)
 					nt := false
@@ -289,6 +326,11 @@ func init() {
 							if len(d) > 0 {
 								nt = true
 							}
+						}
+					}
+					for _, m := range res {
+						if strings.HasSuffix(m.Class, "hang") {
+							atomic.AddInt32(&hangs, 1)
 						}
 					}
 					mu.Lock()
@@ -322,7 +364,7 @@ func init() {
 			return 2
 		}
 		summary := map[string]any{"cases": n, "replays": n, "nontrivial": nontrivial, "chains": len(chains),
-			"mismatches": all, "by_class": byClass, "samples": samples, "raw": raw}
+			"skipped_after_hangs": atomic.LoadInt32(&skipped), "mismatches": all, "by_class": byClass, "samples": samples, "raw": raw}
 		b, _ := json.Marshal(summary)
 		if err := os.WriteFile(*out, b, 0o644); err != nil {
 			fmt.Fprintln(os.Stderr, err)
